@@ -494,7 +494,7 @@ def r6(R):
       'under (which new_oid consults, C20.R6) is emptied only by the owner of '
       'the commit lock: after the acquire in tpc_begin, or behind the '
       'transaction-identity check of finish/abort -- never by a committer '
-      'that is still waiting', min_instances=3)
+      'that is still waiting', props=['C10'], min_instances=3)
 def r7(R):
     from ..twopc import commit_lock_ops, identity_guard
     ds = R.prog.cls(DS)
@@ -509,8 +509,11 @@ def r7(R):
         f = r[0]
         oid = [p for p in f.params if p != 'self'][0]
         for c in walk_local(f.node):
+            # `self.<attr>.add(oid)` / `.append(oid)`: the ids stored under,
+            # the ids of resolved conflicts (what the vote returns)
             if isinstance(c, ast.Call) and isinstance(
-                    c.func, ast.Attribute) and c.func.attr == 'add' and \
+                    c.func, ast.Attribute) and c.func.attr in (
+                        'add', 'append') and \
                     dotted(c.func.value) and len(dotted(c.func.value)) == 2 \
                     and dotted(c.func.value)[0] == 'self' and c.args and \
                     isinstance(c.args[0], ast.Name) and c.args[0].id == oid:
@@ -535,6 +538,10 @@ def r7(R):
                         len(op.path) == 3 and op.path[0] == 'self' and \
                         op.path[1] in recorded and op.path[2] in EMPTIERS:
                     out.append(op)
+                elif op.kind in ('delitem', 'del') and \
+                        op.path is not None and len(op.path) >= 2 and \
+                        op.path[0] == 'self' and op.path[1] in recorded:
+                    out.append(op)           # del self.<attr>[:]
             return out
 
         if not any(isinstance(x, ast.Attribute) and x.attr in recorded
@@ -563,10 +570,14 @@ def r7(R):
                         'DemoStorage.%s empties self.%s (`%s`) on a path on '
                         'which the caller is not known to own the commit '
                         'lock: a committer still WAITING for the lock wipes '
-                        'the ids the transaction in progress is storing '
-                        'copied records under; new_oid() then hands one of '
-                        'them out, and the store under it replaces the '
-                        'copied record' % (
+                        'what the transaction in progress has recorded -- '
+                        'the ids it stores copied records under (new_oid() '
+                        'then hands one out, and the store under it '
+                        'replaces the copied record), the ids of the '
+                        'conflicts it resolved (its vote returns none: the '
+                        'writer keeps its un-merged copy under the new '
+                        'serial, and its next commit loses the other '
+                        'update)' % (
                             name, op.path[1],
                             ' '.join(ast.unparse(op.stmt).split())[:60]))
             return st
